@@ -26,15 +26,18 @@ var modes = []core.SynchronizationMode{
 	core.SynchronizationMode_SynchronizationModeOneWayReplica,
 }
 
-var pathVocabulary = []string{"a", "b", "c", "a/a", "a/b", "b/a", "b/c", "a/b/c", "a/a/a", "c/b", "d"}
+var pathVocabulary = []string{"a", "b", "c", "a/a", "a/b", "b/a", "b/c", "a/b/c", "a/b/d", "a/b/e", "a/a/a", "c/b", "d"}
 
 // genEdit draws one user edit.
 func genEdit(r *simkit.Rand, p *simkit.Plan, actor string, id *int64, untracked bool) {
 	side := simkit.Pick(r, []string{"alpha", "beta"})
 	path := simkit.Pick(r, pathVocabulary)
-	w := []int{40, 8, 6, 18, 8, 0, 0}
+	w := []int{40, 8, 6, 18, 8, 0, 0, 0}
 	if untracked {
 		w[5], w[6] = 10, 5
+	}
+	if p.Cfg["on_disk"] == 1 {
+		w[7] = 14 // in-place edits (same inode, same size, new mtime)
 	}
 	switch r.Weighted(w) {
 	case 0:
@@ -52,6 +55,9 @@ func genEdit(r *simkit.Rand, p *simkit.Plan, actor string, id *int64, untracked 
 		p.Ops = append(p.Ops, simkit.Op{Actor: actor, Kind: "untracked", S: []string{side, path}})
 	case 6:
 		p.Ops = append(p.Ops, simkit.Op{Actor: actor, Kind: "problem", S: []string{side, path}})
+	case 7:
+		*id++
+		p.Ops = append(p.Ops, simkit.Op{Actor: actor, Kind: "edit", N: []int64{*id}, S: []string{side, path}})
 	}
 }
 
@@ -67,9 +73,10 @@ func genModel(p *simkit.Plan, r *simkit.Rand, tier string) {
 		c["mode"] = int64(simkit.Pick(r, []int{0, 0, 1}))
 	}
 	c["sched_sticky"] = int64(simkit.Pick(r, []int{0, 40, 80}))
-	untracked := p.Scenario == "model-untracked" || p.Scenario == "disk-untracked"
+	untracked := p.Scenario == "model-untracked" || p.Scenario == "disk-untracked" || p.Scenario == "model-outcomes" || p.Scenario == "model-outcomes-enum"
 	onDisk := strings.HasPrefix(p.Scenario, "disk")
 	if onDisk {
+		c["on_disk"] = 1
 		// Which activities park at syscall-level gates in this run.
 		c["fs_gates"] = int64(simkit.Pick(r, []int{0, 1, 2, 3, 3, 63, 31}))
 		c["internal_staging"] = int64(r.Intn(2))
@@ -93,7 +100,7 @@ func genModel(p *simkit.Plan, r *simkit.Rand, tier string) {
 	if onDisk {
 		n = r.Range(3, 14)
 	}
-	lifecycle := p.Scenario == "lifecycle"
+	lifecycle := p.Scenario == "lifecycle" || p.Scenario == "disk-lifecycle"
 	for i := 0; i < n; i++ {
 		switch r.Weighted([]int{50, 15, 20}) {
 		case 0:
@@ -129,6 +136,40 @@ func genModel(p *simkit.Plan, r *simkit.Rand, tier string) {
 			}
 		}
 	}
+	if p.Scenario == "disk-edits" {
+		// Few paths, all regular files on both sides, edited over and over:
+		// replacements with a new inode, in-place rewrites of the same size
+		// (often within the same second), mode flips and deletions, so that a
+		// change frequently lands between a scan and the transition that
+		// wants to replace or remove that very file.
+		p.Ops = p.Ops[:0]
+		c["mirror_init"] = 1
+		c["fs_gates"] = int64(simkit.Pick(r, []int{0, 1, 2, 3}))
+		small := []string{"a", "b", "d"}
+		for _, path := range small {
+			id++
+			p.Ops = append(p.Ops, simkit.Op{Actor: "init", Kind: "put", N: []int64{id, 0}, S: []string{"alpha", path}})
+		}
+		for i := r.Range(6, 24); i > 0; i-- {
+			side := simkit.Pick(r, []string{"alpha", "beta"})
+			path := simkit.Pick(r, small)
+			id++
+			switch r.Weighted([]int{30, 40, 8, 8, 8, 6}) {
+			case 0:
+				p.Ops = append(p.Ops, simkit.Op{Actor: "user", Kind: "put", N: []int64{id, int64(r.Intn(2))}, S: []string{side, path}})
+			case 1:
+				p.Ops = append(p.Ops, simkit.Op{Actor: "user", Kind: "edit", N: []int64{id}, S: []string{side, path}})
+			case 2:
+				p.Ops = append(p.Ops, simkit.Op{Actor: "user", Kind: "chmod", S: []string{side, path}})
+			case 3:
+				p.Ops = append(p.Ops, simkit.Op{Actor: "user", Kind: "del", S: []string{side, path}})
+			case 4:
+				p.Ops = append(p.Ops, simkit.Op{Actor: "client", Kind: "flush", N: []int64{int64(r.Intn(2))}})
+			case 5:
+				p.Ops = append(p.Ops, simkit.Op{Actor: "user", Kind: "sleep", N: []int64{int64(simkit.Pick(r, []int{1, 50, 1100}))}})
+			}
+		}
+	}
 	if p.Scenario == "disk-escape" {
 		// Swap directories and files on planned paths for links to the canary.
 		c["fs_gates"] = int64(simkit.Pick(r, []int{3, 15, 31, 63, 2}))
@@ -142,13 +183,68 @@ func genModel(p *simkit.Plan, r *simkit.Rand, tier string) {
 			op := simkit.Op{Actor: "user", Kind: "swaplink", S: []string{simkit.Pick(r, []string{"alpha", "beta"}), simkit.Pick(r, []string{"a", "b", "c", "a/b", "a/a"})}}
 			p.Ops = append(p.Ops[:at:at], append([]simkit.Op{op}, p.Ops[at:]...)...)
 		}
+		if r.Chance(1, 2) {
+			// Sibling burst: both sides share a deep directory; one side gains
+			// several new entries in it at once (so one Transition call walks
+			// to the same parent repeatedly) while the user swaps an ancestor
+			// of that directory for a link on the receiving side.
+			c["mirror_init"] = 1
+			src, dst := "alpha", "beta"
+			if r.Chance(1, 2) {
+				src, dst = dst, src
+			}
+			id++
+			pre := []simkit.Op{{Actor: "init", Kind: "put", N: []int64{id, 0}, S: []string{"alpha", "a/b/c"}}}
+			var burst []simkit.Op
+			for _, leaf := range []string{"a/b/d", "a/b/e", "a/b/a"}[:r.Range(2, 3)] {
+				id++
+				burst = append(burst, simkit.Op{Actor: "user", Kind: "put", N: []int64{id, 0}, S: []string{src, leaf}})
+			}
+			if r.Chance(1, 3) {
+				burst = append(burst, simkit.Op{Actor: "user", Kind: "swaplink", S: []string{dst, simkit.Pick(r, []string{"a", "a", "a/b"})}})
+			} else {
+				// ... or exactly at the Nth system call of a transition there.
+				p.Faults = append(p.Faults, simkit.Fault{Kind: "fs_user", Key: dst + ".transition", Nth: r.Range(1, 40), S: "swaplink:" + simkit.Pick(r, []string{"a", "a", "a/b"})})
+			}
+			at := 0
+			for at < len(p.Ops) && p.Ops[at].Actor == "init" {
+				at++
+			}
+			at += r.Intn(len(p.Ops) - at + 1)
+			rest := append([]simkit.Op(nil), p.Ops[at:]...)
+			p.Ops = append(append(append(pre, p.Ops[:at]...), burst...), rest...)
+		}
 	}
 	if p.Scenario == "model-halt" || p.Scenario == "disk-halt" {
 		// Converge first, then one root event, then give it time.
 		c["halt_side"] = int64(r.Intn(2))
 		c["halt_kind"] = int64(r.Intn(4)) // 0 delete, 1 replace by file, 2 empty, 3 control: empty both
 	}
+	if p.Scenario == "model-outcomes-enum" {
+		c["enum_cap"] = 24
+		if tier == "thorough" {
+			c["enum_cap"] = 200
+		}
+		c["enum_seed"] = int64(r.Uint64() >> 1)
+	}
 	// Fault rules.
+	if onDisk && r.Chance(1, 2) {
+		// User modifications placed inside scans, staging and transitions.
+		paths := pathVocabulary
+		if p.Scenario == "disk-edits" {
+			paths = []string{"a", "b", "d"}
+		}
+		kinds := []string{"put", "edit", "del", "chmod", "mkdir"}
+		if p.Scenario == "disk-escape" {
+			kinds = append(kinds, "swaplink", "swaplink")
+		}
+		for k := r.Range(1, 3); k > 0; k-- {
+			id++
+			p.Faults = append(p.Faults, simkit.Fault{Kind: "fs_user",
+				Key: simkit.Pick(r, []string{"alpha", "beta"}) + "." + simkit.Pick(r, []string{"scan", "scan", "transition", "transition", "stage"}),
+				Nth: r.Range(1, 60), Arg: id, S: simkit.Pick(r, kinds) + ":" + simkit.Pick(r, paths)})
+		}
+	}
 	if p.Scenario == "model-outcomes" {
 		for k := r.Range(1, 6); k > 0; k-- {
 			p.Faults = append(p.Faults, simkit.Fault{Kind: "outcome", Key: simkit.Pick(r, []string{"alpha", "beta"}), Nth: r.Range(1, 8), Arg: int64(r.Range(1, 400))})
@@ -448,6 +544,7 @@ func (h *harness) settle() {
 		return mgr.Flush(c, h.sel, "", false)
 	}
 	h.mu.Lock()
+	h.settling = true
 	term, paused := h.terminatedSince > 0, h.pausedSince > 0
 	h.mu.Unlock()
 	if term || paused {
@@ -679,4 +776,71 @@ func (h *harness) finalChecks() {
 			}
 		})
 	}
+}
+
+
+// execOutcomeEnumeration decides C05 by enumeration for one seeded history: a
+// fault-free execution counts the changes each endpoint is asked to apply;
+// then the same history is re-executed once per (endpoint, change index,
+// outcome class) with exactly that change receiving the outcome.
+func execOutcomeEnumeration(t *testing.T, plan *simkit.Plan) *simkit.Result {
+	base := plan.Clone()
+	base.Scenario = "model-outcomes"
+	base.Faults = nil
+	first := execSession(t, base)
+	if first.Trouble != "" || len(first.Violations) > 0 {
+		first.Fingerprint = simkit.Digest(first.JournalHash, "enum")
+		return first
+	}
+	total := &simkit.Result{Seed: plan.Seed, Counters: map[string]int64{}, NonTrivial: first.NonTrivial, JournalTail: first.JournalTail}
+	merge := func(r *simkit.Result) {
+		for k, v := range r.Counters {
+			total.Counters[k] += v
+		}
+		total.Steps += r.Steps
+		total.SimNanos += r.SimNanos
+		for _, v := range r.Violations {
+			dup := false
+			for _, w := range total.Violations {
+				if w.Property == v.Property && w.Rule == v.Rule && w.Class == v.Class {
+					dup = true
+				}
+			}
+			if !dup {
+				total.Violations = append(total.Violations, v)
+				total.JournalTail = r.JournalTail
+			}
+		}
+		if r.Trouble != "" {
+			total.Trouble = r.Trouble
+		}
+	}
+	merge(first)
+	budget := int(plan.C("enum_cap"))
+	hashes := first.JournalHash
+	for _, side := range []string{"alpha", "beta"} {
+		n := int(first.Counters["probe.changes_applied_"+side])
+		for pos := 1; pos <= n && budget > 0; pos++ {
+			for class := int64(1); class <= 4 && budget > 0; class++ {
+				p := base.Clone()
+				p.Sched = nil
+				p.SchedClosed = false
+				// Arg encodes the class in its residue mod 5 and a mask seed.
+				p.Faults = []simkit.Fault{{Kind: "outcome", Key: side, Nth: pos, Arg: class + 5*int64((uint64(plan.C("enum_seed"))+uint64(pos*7))%60)}}
+				r := execSession(t, p)
+				merge(r)
+				total.Counters["enum.outcome_positions"]++
+				hashes += r.JournalHash
+				budget--
+				if len(total.Violations) > 0 || total.Trouble != "" {
+					total.Fingerprint = simkit.Digest(hashes)
+					total.JournalHash = r.JournalHash
+					return total
+				}
+			}
+		}
+	}
+	total.JournalHash = simkit.Digest(hashes)
+	total.Fingerprint = total.JournalHash
+	return total
 }
